@@ -24,7 +24,6 @@ import itertools  # noqa: E402
 B._counter = itertools.count(1_000_000 + next(B._counter))
 
 DOCUMENTED = {"ParserError", "ConverterError", "XmlContextError", "LEAK:XmlHandlerError"}
-FEATURES_JSON = None
 
 
 # =============================================================================== (i) tree level
@@ -132,6 +131,148 @@ def cmp_doc_lxml(mo, io, a):
     return mo == io
 
 
+# =============================================================================== (iii) JSON / dict decoder
+FEATURES_JSON = {"attr", "elem", "text", "child", "list", "tokens", "attributes", "nillable", "fixed", "qname", "ns", "sequence",
+                 "inherit", "wrapper"}
+
+
+def float_text(x: float) -> str:
+    """what the float converter writes (re-stated here: NaN / INF / -INF, else repr with E notation)"""
+    if x != x:
+        return "NaN"
+    if x == float("inf"):
+        return "INF"
+    if x == float("-inf"):
+        return "-INF"
+    return repr(x).upper().replace("E+", "E")
+
+
+def tag_json(v):
+    if v is None or isinstance(v, bool):
+        return v
+    if isinstance(v, int):
+        return {"i": v}
+    if isinstance(v, float):
+        return {"f": float_text(v)}
+    if isinstance(v, str):
+        return {"s": v}
+    if isinstance(v, list):
+        return {"a": [tag_json(x) for x in v]}
+    if isinstance(v, dict):
+        return {"o": [[k, tag_json(x)] for k, x in v.items()]}
+    raise ValueError(v)
+
+
+def json_depth(v):
+    if isinstance(v, list):
+        return 1 + max([json_depth(x) for x in v] or [0])
+    if isinstance(v, dict):
+        return 1 + max([json_depth(x) for x in v.values()] or [0])
+    return 0
+
+
+def load_outcome(data: bytes):
+    """what json.load does with the bytes (stdlib only): the `loaded` argument of op dict.decode"""
+    try:
+        v = json.loads(data)
+    except json.JSONDecodeError:
+        return "JSONDecodeError", None
+    except UnicodeDecodeError:
+        return "UnicodeDecodeError", None
+    except RecursionError:
+        return "RecursionError", None
+    except ValueError as e:
+        if "Exceeds the limit" in str(e):
+            return "IntLimit", None
+        raise
+    return None, v
+
+
+def _has_surrogate(v):
+    if isinstance(v, str):
+        return any(0xD800 <= ord(c) <= 0xDFFF for c in v)
+    if isinstance(v, list):
+        return any(_has_surrogate(x) for x in v)
+    if isinstance(v, dict):
+        return any(_has_surrogate(k) or _has_surrogate(x) for k, x in v.items())
+    return False
+
+
+def _strings(v):
+    if isinstance(v, str):
+        yield v
+    elif isinstance(v, list):
+        for x in v:
+            yield from _strings(x)
+    elif isinstance(v, dict):
+        for k, x in v.items():
+            yield k
+            yield from _strings(x)
+
+
+def _plain(s):
+    return all(c.isascii() and (c.isalnum() or c in " _.-") for c in s)
+
+
+def gen_dict(rng, tier):
+    """valid JSON serializations and their faults; value-level faults go to DictDecoder.decode,
+    byte-level faults to JsonParser.from_bytes (whose json.load outcome is decided with the stdlib)"""
+    n_uni = n_cases(tier, 16, 300)
+    for _ in range(n_uni):
+        u, desc, ctx = new_universe(rng, FEATURES_JSON)
+        for _ in range(2):
+            try:
+                obj = G.gen_instance(rng, u, "Root")
+                js = F.real_json_serialize(u, obj)
+            except Exception:  # noqa: BLE001
+                continue
+            doc = json.loads(js)
+            cfgs = [rng.choice(CONFIGS) for _ in range(2)]
+            base = {"ctx": ctx, "clazz": "Root", "desc": desc, "_uni": u.modname}
+
+            def case(kind, v, list_of=False):
+                if _has_surrogate(v):
+                    return None  # lone surrogates cannot cross the JSON line protocol to the driver
+                return {**base, "config": rng.choice(cfgs), "loaded": {"value": tag_json(v)}, "list_of": list_of,
+                        "fuel": 4 * json_depth(v) + 16, "json": json.dumps(v), "_kind": kind}
+
+            yield case("valid", doc)
+            for k, v in F.json_value_faults(rng, doc, tier):
+                lo = k.startswith("top_") and rng.random() < 0.5
+                c = case(k, v, lo)
+                if c:
+                    yield c
+            known = set(_strings(doc))
+            for k, b in F.json_byte_faults(rng, js.encode(), tier):
+                tag, v = load_outcome(b)
+                if tag is None:
+                    if isinstance(v, float) and v != v or _has_surrogate(v):
+                        continue
+                    if any(s not in known and not _plain(s) for s in _strings(v)):
+                        continue  # a flipped byte inside a QName/URI string: outside the driver's ASCII is_uri/is_ncname
+                    try:
+                        loaded = {"value": tag_json(v)}
+                    except ValueError:
+                        continue
+                else:
+                    loaded = tag
+                yield {**base, "ctx": ctx if tag is None else F.EMPTY_CTX, "config": rng.choice(cfgs), "loaded": loaded, "list_of": False,
+                       "fuel": 4 * json_depth(v) + 16, "hex": b.hex(), "_kind": "bytes:" + k}
+
+
+def impl_dict(a):
+    u = uni_of(a)
+    r, _site_ = json_outcome(u, a)
+    r.pop("msg", None)
+    return r
+
+
+def cmp_dict(mo, io, a):
+    if unsupported(mo):
+        return True
+    return mo == io
+
+
 CORRS = [
     Corr("bind.parse", gen_tree_faults, impl_parse, compare=cmp_parse, classify=classify_outcome,
          describe="NodeParser(EventsHandler) vs model on valid documents and every tree-level fault kind"),
@@ -139,6 +280,8 @@ CORRS = [
          describe="XmlParser(XmlEventHandler).from_bytes vs model(parseDocument) on byte-level faults; tokenizer outcome from libxml2 strict"),
     Corr("fault.document.lxml", gen_doc_lxml, impl_doc_lxml, compare=cmp_doc_lxml, classify=classify_outcome,
          describe="XmlParser(LxmlEventHandler).from_bytes on byte-level faults: model outcome on well-formed input, no leak otherwise"),
+    Corr("dict.decode", gen_dict, impl_dict, compare=cmp_dict, classify=classify_outcome,
+         describe="DictDecoder.decode / JsonParser.from_bytes outcome class vs model on value-level and byte-level JSON faults"),
 ]
 
 
@@ -283,6 +426,8 @@ JSON_FINDING_SITES = [
     ("LEAK:ValueError", "parsers/dict.py:bind_value", "dictionary update sequence", "C15-json-attributes-non-mapping"),
     ("LEAK:TypeError", "formats/converter.py:serialize", "sequence item", "C15-json-null-token"),
     ("LEAK:RecursionError", "parsers/json.py:load_json", "", "C15-json-deep-nesting"),
+    ("LEAK:TypeError", "parsers/dict.py:bind_dataclass", "indices must be integers", "C15-json-wrapper-subscript"),
+    ("LEAK:TypeError", "", "unhashable type", "C15-json-unhashable-xsi-type"),
     ("LEAK:ValueError", "parsers/json.py:load_json", "Exceeds the limit", "C15-json-huge-int"),
 ]
 
@@ -299,7 +444,7 @@ def gen_oracle_json(rng, tier):
     (JsonParser.from_bytes)"""
     n_uni = n_cases(tier, 20, 300)
     for _ in range(n_uni):
-        u, desc, ctx = new_universe(rng, FEATURES_JSON)
+        u, desc, ctx = new_universe(rng, None)  # every field kind, also those the decoder model leaves out
         for _ in range(2):
             try:
                 obj = G.gen_instance(rng, u, "Root")
@@ -320,7 +465,8 @@ ORACLES = [
     Oracle("c15.tree", gen_oracle_tree, check_tree, from_ops=("bind.parse",)),
     Oracle("c15.xml_bytes", gen_oracle_xml, check_xml_bytes, covered=covered_xml,
            from_ops=("fault.document", "fault.document.lxml"), adapt=adapt_xml),
-    Oracle("c15.json", gen_oracle_json, check_json, covered=covered_json),
+    Oracle("c15.json", gen_oracle_json, check_json, covered=covered_json, from_ops=("dict.decode",),
+           adapt=lambda op, a: {k: a[k] for k in ("hex", "json", "clazz", "config", "list_of", "desc", "_uni", "_kind") if k in a}),
 ]
 
 
@@ -340,6 +486,7 @@ def _mini():
         t: list[int] = field(default_factory=list, metadata={"type": "Element", "tokens": True})
         at: dict[str, str] = field(default_factory=dict, metadata={"type": "Attributes"})
         c: Optional[Item] = field(default=None, metadata={"type": "Element"})
+        b: list[str] = field(default_factory=list, metadata={"type": "Element", "wrapper": "items"})
 
     return Doc
 
@@ -416,6 +563,8 @@ FINDINGS = {
     "C15-json-null-token": _json_finding(b'{"t": [null]}', "TypeError"),
     "C15-json-deep-nesting": _json_finding(b"[" * 100000 + b"]" * 100000, "RecursionError"),
     "C15-json-huge-int": _json_finding(b'{"x": ' + b"9" * 5000 + b"}", "ValueError"),
+    "C15-json-wrapper-subscript": _json_finding(b'{"b": ["a"]}', "TypeError"),
+    "C15-json-unhashable-xsi-type": _json_finding(b'{"x": {"qname": "q", "type": [1], "value": {}}}', "TypeError"),
     "C15-xml-unknown-encoding": _xml_encoding_finding,
     "C15-xml-version-number": _xml_version_finding,
     "C15-lxml-surrogate-charref": _lxml_surrogate_finding,
